@@ -1199,6 +1199,84 @@ def _r07c(chk, repo) -> None:
         chk.count(f"R07c.shape[{k}]", v)
 
 
+# objects the variant loop is meant to accumulate into across iterations: name -> reason
+R07D_ACCUMULATORS = {"variants": "the result: rendered variants keyed by their source text, filled once per kept variant"}
+_FRESH_CALLS = ("deepcopy", "copy", "dict", "list", "set", "tuple")
+
+
+def _r07d(chk, repo) -> None:
+    """_handle_unreached_code forces an unreached if/elif branch on by writing alternate code into a
+    copy of the analysed template, renders that copy, and re-maps the slices with the length deltas
+    recorded for exactly those overrides.  If the object carrying the overrides (or the delta table)
+    survives from one variant to the next, a later variant is rendered with overrides it has no
+    deltas for: every following source slice is shifted -- literal slices then point at the wrong
+    source text or past the end of the file, and none of the constructor's checks can see that."""
+    f = repo.fn(JINJA, "JinjaTemplater._handle_unreached_code")
+    cfg = cfg_of(f)
+    loops = [n for n in walk_local(f) if isinstance(n, ast.For) and any(isinstance(c, ast.Call) and last_attr(c) == "trace" for c in ast.walk(n))]
+    loops = [l for l in loops if not any(l is not o and any(x is l for x in ast.walk(o)) for o in loops)]  # outermost
+    chk.count("R07d.variant_loops", len(loops))
+    if not loops:
+        raise AnalysisError("R07d: the loop of _handle_unreached_code that traces each variant was not found")
+    n = 0
+    for loop in loops:
+        roots = {}
+        for st in [x for b in loop.body for x in [b] + list(walk_local(b))]:
+            tgs = []
+            if isinstance(st, ast.Assign):
+                tgs = st.targets
+            elif isinstance(st, (ast.AugAssign, ast.AnnAssign)):
+                tgs = [st.target]
+            for t in tgs:
+                if isinstance(t, (ast.Attribute, ast.Subscript)):
+                    r_ = t
+                    while isinstance(r_, (ast.Attribute, ast.Subscript, ast.Call)):
+                        r_ = r_.func if isinstance(r_, ast.Call) else r_.value
+                    if isinstance(r_, ast.Name):
+                        roots.setdefault(r_.id, st)
+            if isinstance(st, ast.Expr) and isinstance(st.value, ast.Call) and isinstance(st.value.func, ast.Attribute) and st.value.func.attr in MUTATORS:
+                r_ = st.value.func.value
+                while isinstance(r_, (ast.Attribute, ast.Subscript, ast.Call)):
+                    r_ = r_.func if isinstance(r_, ast.Call) else r_.value
+                if isinstance(r_, ast.Name):
+                    roots.setdefault(r_.id, st)
+        for name, st in sorted(roots.items()):
+            n += 1
+            if name in R07D_ACCUMULATORS:
+                chk.ok("R07d", construct_of(st), f"{name}: reviewed accumulator ({R07D_ACCUMULATORS[name]})")
+                continue
+            body_stmts = [x for b in loop.body for x in [b] + list(walk_local(b))]
+
+            def fresh_at(nm: str, at, depth: int = 0) -> bool:
+                ds = cfg.reaching().defs_at(at, nm)
+                if not ds or depth > 3:
+                    return False
+                for d in ds:
+                    if d.stmt is None or not any(x is d.stmt for x in body_stmts):
+                        return False  # bound outside the loop: survives from one variant to the next
+                    if getattr(d, "kind", "") != "assign" or d.value is None or d.path:
+                        return False
+                    v = d.value
+                    if isinstance(v, (ast.Dict, ast.List, ast.Set, ast.ListComp, ast.DictComp, ast.SetComp)):
+                        continue
+                    if isinstance(v, ast.Call) and (call_name(v).split(".")[-1] in _FRESH_CALLS or call_name(v).split(".")[-1][:1].isupper()):
+                        continue
+                    if isinstance(v, ast.Name) and fresh_at(v.id, d.stmt, depth + 1):
+                        continue  # a plain alias of something created in this iteration
+                    return False
+                return True
+
+            fresh = fresh_at(name, st)
+            chk.require(
+                fresh, "R07d", st,
+                f"`{name}` is changed for every variant (`{short(st, 60)}`) but is not created afresh inside the variant loop: what one variant wrote (forced-branch overrides, "
+                "length deltas) is still there when the next variant is rendered and re-mapped, so its source slices are shifted against the file",
+                detail=f"variant loop: {name} is per-iteration state",
+            )
+    chk.count("R07d.mutated_objects", n)
+    chk.floor("R07d.mutated_objects", 2)
+
+
 def run(chk) -> None:
     repo = chk.repo
     chk.rule("R07a", "TemplatedFile.__init__ refuses (assert/raise, equality, every element, every path) raw slices that do not tile the stored source from 0 to its length and rendered slices that do not tile the stored rendered text from 0 to its length")
@@ -1207,6 +1285,8 @@ def run(chk) -> None:
     facts = _r07a(chk, repo)
     _r07b(chk, repo, facts)
     _r07c(chk, repo)
+    chk.rule("R07d", "each speculative variant is rendered from its own working state: every object the variant loop of _handle_unreached_code mutates is created afresh inside the loop (deepcopy / constructor / literal), except the reviewed result accumulator")
+    _r07d(chk, repo)
     chk.assumptions.append("assert statements are executed (the interpreter is not run with -O); CPython ast gives the program's syntax faithfully")
     chk.note(
         "Partial claim: the two tiling clauses hold for every TemplatedFile object because its constructor enforces them and nothing bypasses it. "
@@ -1254,6 +1334,18 @@ _FINAL = (
 )
 
 VARIANTS: List[Variant] = [
+    Variant(
+        "variant-overrides-on-one-shared-copy", JINJA,
+        "            tracer_trace = copy.deepcopy(tracer_copy)\n",
+        "            tracer_trace = tracer_copy\n",
+        "R07d", "_handle_unreached_code", "seeded C07-1 (same effect): overrides written for one variant leak into the next",
+    ),
+    Variant(
+        "quiet-variant-copy-through-helper-name", JINJA,
+        "            tracer_trace = copy.deepcopy(tracer_copy)\n",
+        "            fresh_tracer = copy.deepcopy(tracer_copy)\n            tracer_trace = fresh_tracer\n",
+        "QUIET", None, "the per-variant copy passed through another local",
+    ),
     # ---- behaviour-preserving edits: the check must stay quiet -------------------------------
     Variant(
         "quiet-raw-check-as-if-raise-through-locals", BASE,
